@@ -167,3 +167,7 @@ Proof. vm_compute. reflexivity. Qed.
 Lemma localtime_table_ok :
   forallb (fun r => implb (String.eqb (am_kind r) "localtime") (localtime_row_ok r)) ambient_table = true.
 Proof. vm_compute. reflexivity. Qed.
+
+Lemma alias_table_ok :
+  forallb (fun r => implb (is_alias_kind (am_kind r)) (alias_row_ok r)) ambient_table && alias_registry_live ambient_table = true.
+Proof. vm_compute. reflexivity. Qed.
